@@ -236,8 +236,20 @@ check('C06',
       'jaxpr machinery (transpose_to/from_front, broadcast pass, constancy check), '
       'unroll factors, remat_scan and key bits are NOT covered.',
       XHS, 'DESIGN.md §4 C06, §9.5')
-NA['C07'] = ('equality with jax.vjp/jvp/grad numerics: both sides are JAX autodiff '
-             'over XLA floats, nothing to encode for an SMT solver')
+check('C07',
+      'Bounded symbolic check of the real flax.core.lift.vjp / value_and_grad / jvp / '
+      'custom_vjp and the linen nn.vjp / nn.value_and_grad / nn.jvp wrappers on a '
+      'polynomial body over parameter, statistics and counter collections holding '
+      'SYMBOLIC ints: primal output, cotangents of exactly the selected collections '
+      '(4 vjp_variables filters) and of every primal input, tangents incl. dropped '
+      'empty tangent collections, has_aux, forward side effects published exactly '
+      'once, custom backward rule used only when differentiating -- against the '
+      'hand-derived derivative.',
+      'jax.vjp / jax.jvp / jax.custom_vjp are replaced by a reference AD on symbolic '
+      'ints (dual numbers), so equality with JAX\'s floating-point AD, reduce_axes '
+      'and everything that only exists under tracing are NOT covered; bodies are '
+      'polynomials over 2-element arrays.',
+      XHS, 'DESIGN.md §4 C07, §9.5')
 
 def main():
   checks = []
